@@ -20,6 +20,8 @@ int run_leak(const vf::Args&);
 int run_cycle(const vf::Args&);
 int run_nodeinfo_conc(const vf::Args&);
 int run_collapse_micro(const vf::Args&);
+int run_perm_readers(const vf::Args&);
+int run_root_race(const vf::Args&);
 
 int main(int argc, char** argv) {
     google::InitGoogleLogging(argv[0]);
@@ -76,6 +78,8 @@ int main(int argc, char** argv) {
     if (mode == "cycle") { return run_cycle(args); }
     if (mode == "nodeinfo_conc") { return run_nodeinfo_conc(args); }
     if (mode == "collapse_micro") { return run_collapse_micro(args); }
+    if (mode == "perm_readers") { return run_perm_readers(args); }
+    if (mode == "root_race") { return run_root_race(args); }
     fprintf(stderr, "unknown --mode %s\n", mode.c_str());
     return 2;
 }
